@@ -48,6 +48,10 @@ type RootAssertionNode struct {
 	// functionContext holds the context of the function during backpropagation. The state includes
 	// map objects that are created at initialization, and configurations that are passed through function analyzer.
 	functionContext FunctionContext
+
+	// isShortCircuitScratch is set on the temporary node that AddComputation uses to evaluate a
+	// short-circuit expression (`&&` / `||`) in isolation.
+	isShortCircuitScratch bool
 }
 
 // LocationOf returns the location of the given expression.
@@ -573,6 +577,20 @@ func (r *RootAssertionNode) AddComputation(expr ast.Expr) {
 	// assignments and branching can't happen within expressions in Go, the order in
 	// which we recur doesn't matter
 	case *ast.BinaryExpr:
+		if (expr.Op == token.LAND || expr.Op == token.LOR) && !r.isShortCircuitScratch {
+			// The nil checks inside a short-circuit expression protect only the operands to their
+			// right within the same expression (see below). Since the checks are applied as
+			// productions on the node they are given, we evaluate the outermost short-circuit
+			// expression on a scratch node that holds nothing but its own consumers, and then hand
+			// over whatever is left. Otherwise the checks would also discharge the consumers that
+			// come after the expression, e.g., the dereference in `b := c && x != nil; ...; *x`.
+			scratch := newRootAssertionNode(r.exprNonceMap, r.functionContext)
+			scratch.isShortCircuitScratch = true
+			scratch.AddComputation(expr)
+			r.mergeInto(r, scratch)
+			return
+		}
+
 		// Process the binary expression `X op Y` in reverse, i.e., add consumers for Y first and then X
 		r.AddComputation(expr.Y)
 
